@@ -31,6 +31,7 @@ THEOREMS = [
  'C01.site_msg_is_current', 'C01.site_msg_scheduled', 'C01.scheduled_owner_command_refused', 'C01.trigger_runs_with_speakers_authority',
  'C01.ignored_silent', 'C01.dispatch_requires_not_ignored', 'C01.ignore_flag_ignored', 'C01.ignores_db_ignored',
  'C01.channel_ignored_silent', 'C01.received_dispatch_requires', 'C01.channel_ban_ignored', 'C01.trusted_never_ignored',
+ 'C01.flood_dispatch_requires', 'C01.flood_punishment_ignores',
  'C01.config_write_guard', 'C01.readonly_never_written',
  'C01.defaults_have_antiowner', 'C01.defaults_drop_owner', 'C01.defaults_antiowner_not_owner', 'C01.shipped_defaults_ok',
  'C01.required_present', 'C01.required_rows_guarded', 'C01.inventory_names_valid', 'C01.plugin_names_canonical', 'C01.callgraph_ok', 'C01.defaults_mutators_ok', 'C01.gate_shape_ok',
@@ -406,7 +407,9 @@ def wait_threads():
 
 def deliver(b, prefix, target, text):
     Obs.gate = []; Obs.bodies = []; Obs.entered = []
-    out = bot.feed(b, prefix, target, text)
+    # (not ircmsgs.privmsg: with strictRfc on it refuses a STATUSMSG target such as @#chan)
+    b.irc.feedMsg(b.ircmsgs.IrcMsg(prefix=prefix, command='PRIVMSG', args=(target, text)))
+    out = bot.drain(b)
     wait_threads()
     out += bot.drain(b)
     return out
@@ -1228,6 +1231,140 @@ def explore(ctx, b, w, table, required, n_extra):
                         FINDING_STATUS[fnd] = (c1.oracle_ok is False,
                                                'a MessageParser trigger stored by a caller without the owner capability ran an owner-only command when the owner spoke a matching line (the action is dispatched with the speaker\'s message)')
                 deliver(b, ROLES['owner'], CHAN, '@messageparser remove vtmagic')
+
+    # ================= configurations that change what the gate shows: flood guard on, private capabilities,
+    # generic no-capability reply, whenNotCommand off, strictRfc with a STATUSMSG target =================
+    if 'VtGate' in have and 'Owner' in have:
+        owner_cb = [cb for cb in irc.callbacks if cb.name() == 'Owner'][0]
+        fl = conf.supybot.abuse.flood
+        fl.command.setValue(True); fl.command.maximum.setValue(3); fl.command.punishment.setValue(300); fl.command.notify.setValue(True)
+        try:
+            for who, pr in (('unreg-flooder', 'flo!f@flood.host'), ('registered-flooder', 'reg!r@flood2.host'), ('owner', ROLES['owner'])):
+                if who == 'registered-flooder':
+                    uf = user_by_name(b, 'vreg'); uf.addHostmask('reg!r@flood2.host'); ircdb.users.setUser(uf)
+                for i in range(6):
+                    fake = b.ircmsgs.privmsg(CHAN, 'x', prefix=pr)
+                    queued = owner_cb.commands.len(fake) + 1
+                    last_dump[0] = None
+                    send_db()
+                    with contextlib.redirect_stdout(io.StringIO()):
+                        bm = conf.supybot.protocols.irc.banmask.makeBanmask(pr, channel=CHAN, network='test')
+                    Obs.execute = None
+                    ign_before = dict(ircdb.ignores.hostmasks)
+                    out = deliver(b, pr, CHAN, '@vtfree')
+                    ran = ('VtGate', ('vtfree',)) in Obs.bodies
+                    new_ign = {k2: v2 for k2, v2 in ircdb.ignores.hostmasks.items() if k2 not in ign_before}
+                    cls = classify(out)
+                    if ran:
+                        impl = 'dispatch'
+                    elif new_ign:
+                        k2, v2 = list(new_ign.items())[0]
+                        impl = 'punished\t%s\t%d' % (wire.enc(k2), int(round(v2 - time.time(), -1)))
+                    elif not out:
+                        impl = 'silent'
+                    else:
+                        impl = 'other:' + cls[0]
+                    must_silent = (who != 'owner' and i >= 4)
+                    ok = True; msg = ''
+                    if who != 'owner' and i >= 3 and ran:
+                        ok = False; msg = 'flood guard on (maximum 3): command #%d of %s within the interval still ran' % (i + 1, pr)
+                    elif must_silent and out:
+                        ok = False; msg = 'flood guard: %s was punished (ignored) yet command #%d was answered: %r' % (pr, i + 1, cls)
+                    elif who == 'owner' and not ran:
+                        ok = False; msg = 'flood guard: a trusted caller (owner) was not served: %r' % (cls,)
+                    c = Case({'op': 'flood', 'who': who, 'prefix': pr, 'n': i + 1}, impl=impl, oracle_ok=ok, oracle_msg=msg, kind='flood',
+                             tags=['flood', 'flood:' + impl.split('\t')[0], 'flood:' + who])
+                    cases.append(c)
+                    lines.append('flood\t%s\t1\t%d\t3\t%s\t300' % (wire.enc(pr), queued, wire.enc(bm)))
+                    def fillf(o, ign):
+                        f = o.split('\t')
+                        if f[0] == 'punished':
+                            return 'punished\t%s\t%d' % (f[1], int(round(int(f[2]), -1)))
+                        return f[0]
+                    pend.append((c, fillf))
+        finally:
+            fl.command.setValue(False)
+            for k2 in [k2 for k2 in ircdb.ignores.hostmasks if 'flood' in k2]:
+                ircdb.ignores.remove(k2)
+            uf = user_by_name(b, 'vreg')
+            if 'reg!r@flood2.host' in uf.hostmasks:
+                uf.removeHostmask('reg!r@flood2.host'); ircdb.users.setUser(uf)
+
+        # ---- reply / parsing configurations: the refusal must survive each of them ----
+        def set_private(on):
+            conf.supybot.capabilities.private.setValue(['owner', 'admin', CHAN + ',op'] if on else [])
+        VARS = [('generic-reply', lambda on: conf.supybot.reply.error.noCapability.setValue(on)),
+                ('private-capabilities', set_private),
+                ('whenNotCommand-off', lambda on: conf.supybot.reply.whenNotCommand.setValue(not on)),
+                ('error-in-private', lambda on: conf.supybot.reply.error.inPrivate.setValue(on)),
+                ('error-with-notice', lambda on: conf.supybot.reply.error.withNotice.setValue(on)),
+                ('strictRfc', lambda on: conf.supybot.protocols.irc.strictRfc.setValue(on))]
+        VPROBES = [('VtGate', ('vtowner',), [], 'owner'), ('VtGate', ('vtadmin',), [], 'admin'), ('VtGate', ('vtop',), [], CHAN + ',op'),
+                   ('Owner', ('flush',), [], 'owner'), ('Admin', ('channels',), [], 'admin')]
+        VPROBES = [x for x in VPROBES if x[0] in have]
+        irc.feedMsg(b.ircmsgs.IrcMsg(':server 005 %s STATUSMSG=@+ :are supported by this server' % NICK)); bot.drain(b)
+        for vname, setter in VARS:
+            setter(True)
+            try:
+                for (plugin, path, pargs, capname) in VPROBES:
+                    for who in ('plain', 'unreg', 'owner'):
+                        for tgt in ((CHAN, '@' + CHAN, NICK) if vname == 'strictRfc' else (CHAN, NICK)):
+                            pr = ROLES[who]
+                            text, cmd, args = command_text(plugin, path, pargs, 'direct', False)
+                            try:
+                                rc, rcbs = route(cmd + args)
+                                if not (len(rcbs) == 1 and rcbs[0].name() == plugin and list(rc) == cmd):
+                                    text, cmd, args = command_text(plugin, path, pargs, 'direct', True)
+                            except Exception:
+                                continue
+                            full = text if tgt == NICK else '@' + text
+                            strict = (vname == 'strictRfc')
+                            bare = tgt.lstrip('@+') if not strict else tgt
+                            mchan = bare if bare[:1] == '#' else None
+                            spec, ae = row_spec(plugin, path, loaded[(plugin, path)])
+                            real = who != 'owner' or plugin == 'VtGate'
+                            last_dump[0] = None
+                            send_db()
+                            lines.append('ignored\t' + wire.enc(pr)); pend.append(None)
+                            tk = (plugin, tuple(cmd))
+                            Obs.execute = (lambda p_, c_, real=real, tk=tk: real if (p_, c_) == tk else False)
+                            before = snapshot(b)
+                            out = deliver(b, pr, tgt, full)
+                            changed = snap_diff(before, snapshot(b))
+                            body_ran = (plugin, path) in Obs.bodies
+                            gate_hit = tk in Obs.gate
+                            seen = [(e[2], e[3]) for e in Obs.entered if (e[0], e[1]) == tk]
+                            cls = classify(out)
+                            texts = ' '.join(m.args[1] for m in out if len(m.args) > 1)
+                            impl = ('passed' if gate_hit and (body_ran or not real) else 'refused') + (' @%s %s' % seen[0] if seen else '')
+                            ok = True; msg = ''
+                            if who != 'owner':
+                                problems = []
+                                if body_ran: problems.append('the command body ran')
+                                if changed: problems.append('state changed: %s' % changed)
+                                if len(out) > 1 or (out and cls[0] not in ('nocap', 'error', 'help')): problems.append('output is not a single error reply: %r' % (cls,))
+                                if vname in ('generic-reply', 'private-capabilities') and (' %s capability' % capname) in texts:
+                                    problems.append('the reply names the capability %s although it is configured not to' % capname)
+                                if problems:
+                                    ok = False
+                                    msg = 'configuration %s: %s (%s) calls %s %s to %s; %s' % (vname, who, pr, plugin, ' '.join(path), tgt, '; '.join(problems))
+                            c = Case({'op': 'cfgvar', 'config': vname, 'plugin': plugin, 'path': list(path), 'prefix': pr, 'target': tgt, 'text': full},
+                                     impl=impl, oracle_ok=ok, oracle_msg=msg, kind='cfgvar', tags=['cfgvar', 'cfgvar:' + vname] + (['oracle:deny'] if who != 'owner' else []))
+                            cases.append(c)
+                            lines.append('site\towner\t%s\t%s\t%s\t%s\t%s\t%d' % (wire.enc(pr), wire.enc(tgt), wire.enc(''), wire.enc(''), wire.enc('@+'), 1 if strict else 0))
+                            pend.append(None)
+                            lines.append('invoke\t%s\t%s\t%s\t%s\t%s\t%d\t%s' % (wire.enc(pr), wire.enc_opt(mchan), wire.enc(plugin), wire.enc_list(cmd),
+                                                                                   enc_spec(spec), 1 if ae else 0, wire.enc_list(args)))
+                            def fillv(o, ign, seen=bool(seen), real=real):
+                                f = o.split('\t'); i = f.index('|'); g = f[:i]; oc = f[i + 1:]
+                                r0 = 'passed' if (g[0] == 'allow' and (oc[0] == 'body' or not real)) else 'refused'
+                                so = SITE_OUT[0]
+                                if seen and so not in (None, 'none', 'bad-op'):
+                                    sf = so.split('\t'); r0 += ' @%s %s' % (wire.dec(sf[0]), wire.dec_opt(sf[1]))
+                                return r0
+                            pend.append((c, fillv))
+            finally:
+                setter(False)
 
     # ================= callers recognised by LOGIN (identify) and by a hostmask that is later removed =================
     # histories: not identified -> identify -> commands (caches warm) -> the login times out / unidentify /
